@@ -13,6 +13,7 @@
 import logging
 import operator
 from multiprocessing import Process, Queue
+from queue import Empty
 from typing import Any, Callable, Dict, Iterator, List, Optional
 
 from numpy.typing import NDArray
@@ -51,6 +52,8 @@ from nucs.solvers.solver import Solver
 
 logger = logging.getLogger(__name__)
 
+QUEUE_TIMEOUT = 1.0  # in seconds, the time to wait for a message before checking that the processes are alive
+
 
 class MultiprocessingSolver(Solver):
     """
@@ -88,13 +91,19 @@ class MultiprocessingSolver(Solver):
 
     def solve(self) -> Iterator[NDArray]:
         solutions: Queue = Queue()
-        for proc_idx, solver in enumerate(self.solvers):
-            Process(target=solver.solve_and_queue, args=(proc_idx, solutions)).start()
+        processes = [
+            Process(target=solver.solve_and_queue, args=(proc_idx, solutions))
+            for proc_idx, solver in enumerate(self.solvers)
+        ]
+        for process in processes:
+            process.start()
+        completed = [False] * len(processes)
         nb = len(self.solvers)
         while nb > 0:
-            proc_idx, solution, statistics = solutions.get()
+            proc_idx, solution, statistics = get_message(solutions, processes, completed)
             self.statistics[proc_idx] = statistics
             if solution is None:
+                completed[proc_idx] = True
                 nb -= 1
             else:
                 yield solution
@@ -107,18 +116,52 @@ class MultiprocessingSolver(Solver):
 
     def optimize(self, variable_idx: int, proc_func_name: str, comparison_func: Callable) -> Optional[NDArray]:
         solutions: Queue = Queue()
-        for proc_idx, solver in enumerate(self.solvers):
-            Process(target=(getattr(solver, proc_func_name)), args=(variable_idx, proc_idx, solutions)).start()
+        processes = [
+            Process(target=(getattr(solver, proc_func_name)), args=(variable_idx, proc_idx, solutions))
+            for proc_idx, solver in enumerate(self.solvers)
+        ]
+        for process in processes:
+            process.start()
+        completed = [False] * len(processes)
         best_solution = None
         nb = len(self.solvers)
         while nb > 0:
-            proc_idx, solution, statistics = solutions.get()
+            proc_idx, solution, statistics = get_message(solutions, processes, completed)
             self.statistics[proc_idx] = statistics
             if solution is None:
+                completed[proc_idx] = True
                 nb -= 1
             elif best_solution is None or comparison_func(solution[variable_idx], best_solution[variable_idx]):
                 best_solution = solution
         return best_solution
+
+
+def get_message(solutions: Queue, processes: List[Any], completed: List[bool]) -> Any:
+    """
+    Gets the next message sent by the processes.
+    :param solutions: the queue of messages
+    :param processes: the processes
+    :param completed: for each process, true iff it has announced its completion
+    :return: a message
+    :raise RuntimeError: if a process has terminated without announcing its completion
+    """
+    while True:
+        try:
+            return solutions.get(timeout=QUEUE_TIMEOUT)
+        except Empty:
+            terminated = [
+                proc_idx
+                for proc_idx, process in enumerate(processes)
+                if not completed[proc_idx] and not process.is_alive()
+            ]
+            if len(terminated) > 0:
+                try:
+                    return solutions.get(timeout=QUEUE_TIMEOUT)  # what they sent last may just have arrived
+                except Empty:
+                    for process in processes:
+                        if process.is_alive():
+                            process.terminate()
+                    raise RuntimeError(f"Processes {terminated} terminated before completing")
 
 
 def sum_stats(stats: List[Any], index: int) -> int:
